@@ -233,14 +233,25 @@ Lemma check_C19_consumer_iff : forall fixed cc ins i,
 Proof. intros fixed cc ins i H. unfold check_C19_consumer. rewrite H. apply forallb_secure. Qed.
 
 (* ------------------------------------------------------------------ certloader *)
-Lemma ca_requires_peer_cert : forall cy c s,
-  mk_ssl_contexts CaGiven cy = Some (c, s) ->
+Lemma ca_requires_peer_cert : forall cy pw c s,
+  mk_ssl_contexts CaGiven cy pw = CtxOk c s ->
   requires_peer_cert c /\ requires_peer_cert s /\
   for_client c = true /\ for_client s = false /\ own_cert c = true /\ own_cert s = true.
 Proof.
-  intros cy c s H. destruct cy; simpl in H; inversion H; subst; clear H;
+  intros cy pw c s H. destruct cy, pw; simpl in H; inversion H; subst; clear H;
     unfold requires_peer_cert; simpl; repeat split; reflexivity.
 Qed.
+
+(* a NAMED CA file - present or not - never yields a context that skips peer verification *)
+Lemma named_ca_verifies_or_raises : forall ca cy pw,
+  ca <> CaNone -> named_ca_ok (mk_ssl_contexts ca cy pw).
+Proof.
+  intros ca cy pw Hn. destruct ca; [exfalso; apply Hn; reflexivity | |];
+    destruct cy, pw; simpl; unfold requires_peer_cert; simpl; auto.
+Qed.
+
+Lemma named_ca_missing_raises : forall cy pw, mk_ssl_contexts CaMissing cy pw = CtxNotFound.
+Proof. intros [] pw; reflexivity. Qed.
 
 Lemma requires_peer_cert_b_iff : forall c, requires_peer_cert_b c = true <-> requires_peer_cert c.
 Proof.
@@ -249,17 +260,22 @@ Proof.
   destruct H; assumption.
 Qed.
 
-(* the whole (finite) space of arguments: contexts exist unless the CA file is missing; the client context never
-   checks the host name; without a CA file the server context does not ask for a client certificate *)
-Definition all_ctx_args : list (cafile * bool) :=
-  [(CaNone, false); (CaNone, true); (CaGiven, false); (CaGiven, true); (CaMissing, false); (CaMissing, true)].
+(* the whole (finite) space of arguments (3 CA cases x 3 cyphers cases x password fits or not = 18): a named CA
+   file gives verifying contexts or an error, a missing file always an error; the client context never checks the
+   host name; without a CA file the server context lets anonymous clients in *)
+Definition all_ctx_args : list (cafile * cyfile * bool) :=
+  flat_map (fun ca => flat_map (fun cy => [(ca, cy, true); (ca, cy, false)]) [CyNone; CyGiven; CyMissing])
+           [CaNone; CaGiven; CaMissing].
 
-Definition ctx_args_ok (p : cafile * bool) : bool :=
-  match mk_ssl_contexts (fst p) (snd p), fst p with
-  | None, CaMissing => true
-  | Some (c, s), CaGiven => requires_peer_cert_b c && requires_peer_cert_b s && negb (check_hostname c)
-  | Some (c, s), CaNone => negb (requires_peer_cert_b c) && negb (requires_peer_cert_b s) && negb (check_hostname c)
-  | _, _ => false
+Definition ctx_args_ok (p : cafile * cyfile * bool) : bool :=
+  let '(ca, cy, pw) := p in
+  match mk_ssl_contexts ca cy pw, ca with
+  | CtxOk _ _, CaMissing => false
+  | CtxOk c s, CaGiven => requires_peer_cert_b c && requires_peer_cert_b s && negb (check_hostname c)
+                          && negb (accepts_anonymous_client s)
+  | CtxOk c s, CaNone => negb (requires_peer_cert_b c) && accepts_anonymous_client s && negb (check_hostname c)
+  | CtxNotFound, _ => match ca, cy with CaMissing, _ | _, CyMissing => true | _, _ => false end
+  | CtxSslError, _ => negb pw
   end.
 
 Lemma ctx_sweep : forallb ctx_args_ok all_ctx_args = true.
